@@ -29,7 +29,7 @@ class Untranslatable(AnalysisError):
 NP_FUNCS: Dict[str, Callable] = {
     "cos": sp.cos, "sin": sp.sin, "exp": sp.exp, "cosh": sp.cosh, "sinh": sp.sinh, "tanh": sp.tanh, "sqrt": sp.sqrt,
     "conj": sp.conjugate, "conjugate": sp.conjugate, "abs": sp.Abs, "tan": sp.tan, "log": sp.log, "arctanh": sp.atanh,
-    "real": sp.re, "imag": sp.im,
+    "real": sp.re, "imag": sp.im, "arctan": sp.atan, "arcsin": sp.asin, "arccos": sp.acos, "angle": sp.arg,
 }
 
 
